@@ -6,6 +6,7 @@ import (
 	"math/rand/v2"
 	"os"
 	"path/filepath"
+	"runtime"
 	"sort"
 	"strings"
 	"testing"
@@ -124,6 +125,9 @@ func corruptBytes(tp *simrt.Tape, data []byte) ([]byte, corruption) {
 }
 
 func runC11(t *testing.T, tp *simrt.Tape, keepTrace bool) hx.Result {
+	// the searcher sizes its worker pools by GOMAXPROCS: with one worker a single
+	// crashing shard meets every "worker gave up" path
+	defer runtime.GOMAXPROCS(runtime.GOMAXPROCS(1 + tp.Gen(2)))
 	corpus := getCorpus(tp.Gen(nCorpora))
 	dir, err := os.MkdirTemp(sScratch(), "c11-")
 	if err != nil {
@@ -186,9 +190,9 @@ func runC11(t *testing.T, tp *simrt.Tape, keepTrace bool) hx.Result {
 		&query.Regexp{Regexp: mustRe("fun[a-z]*|TODO"), Content: true},
 	}
 	type outcome struct {
-		viol *hx.Violation
-		ok   bool
-		evals int
+		viol     *hx.Violation
+		ok       bool
+		evals    int
 		nonEmpty bool
 	}
 	done := make(chan outcome, 1)
@@ -269,6 +273,14 @@ func runC11(t *testing.T, tp *simrt.Tape, keepTrace bool) hx.Result {
 			ss.Search(ctx, q, &zoekt.SearchOptions{NumContextLines: 2, MaxMatchDisplayCount: 2})
 			o.evals += 2
 		}
+		// a listing driven by a content query searches the shards (and can crash in them)
+		if _, err := ss.List(ctx, queries[0], nil); err != nil {
+			if _, rerr := refList(healthy, queries[0], nil); rerr == nil && !strings.Contains(err.Error(), "out of bounds") {
+				o.viol = &hx.Violation{Sig: "list-fails-because-of-corrupt-neighbour|list", Detail: "content query: " + err.Error() + "; " + strings.Join(descr, " ")}
+				return
+			}
+		}
+		o.evals++
 		rl, err := ss.List(ctx, &query.Const{Value: true}, nil)
 		o.evals++
 		if err != nil {
